@@ -7,7 +7,7 @@
    hence an explicit premise `conv` here.
    Part 2 (Model/Entropy.v): over R with the real logarithm (axioms of Coq.Reals, printed below). *)
 From Coq Require Import QArith List Arith Bool ZArith Reals Permutation.
-From NT Require Import QC Sums Corr CorrP Entropy EntropyP.
+From NT Require Import QC Sums Corr CorrP CorrAffine Entropy EntropyP.
 Import ListNotations.
 Open Scope Q_scope.
 
@@ -131,6 +131,46 @@ Theorem C20_pearson_sq_le_1 : forall seed target N s r, (0 < N)%nat ->
    (s / inj N) * (s / inj N) == vx * vy /\ r * (s / inj N) == cov).
 Proof. exact seed_corrcoef_pearson. Qed.
 Print Assumptions C20_pearson_sq_le_1.
+
+(* The Pearson coefficient does not depend on the baseline or the gain of either signal: the value r returned
+   for (seed, target) is the value returned for (a*seed + b, c*target + d) whenever a*c > 0, and -r when
+   a*c < 0 — for every length, all rational gains and baselines.  (Round 11: a one-pass rewrite of
+   seed_corrcoef is the same rational function but loses exactly this in floating point for a baseline of
+   2^27; the check therefore judges large-baseline inputs by this theorem.) *)
+Theorem C20_pearson_affine_invariant : forall a b c d seed target N s r, (0 < N)%nat -> 0 < a * c ->
+  0 < s -> s * s == seed_xx target N * seed_yy seed N -> r * s == seed_xy seed target N ->
+  let seed' := fun t => a * seed t + b in
+  let target' := fun t => c * target t + d in
+  let s' := a * c * s in
+  0 < s' /\ s' * s' == seed_xx target' N * seed_yy seed' N /\ r * s' == seed_xy seed' target' N.
+Proof. exact seed_corrcoef_affine_invariant. Qed.
+Print Assumptions C20_pearson_affine_invariant.
+
+Theorem C20_pearson_affine_sign_flip : forall a b c d seed target N s r, (0 < N)%nat -> a * c < 0 ->
+  0 < s -> s * s == seed_xx target N * seed_yy seed N -> r * s == seed_xy seed target N ->
+  let seed' := fun t => a * seed t + b in
+  let target' := fun t => c * target t + d in
+  let s' := - (a * c) * s in
+  0 < s' /\ s' * s' == seed_xx target' N * seed_yy seed' N /\ (- r) * s' == seed_xy seed' target' N.
+Proof. exact seed_corrcoef_affine_antiinvariant. Qed.
+Print Assumptions C20_pearson_affine_sign_flip.
+
+Theorem C20_seed_sums_affine : forall a b c d seed target N, (0 < N)%nat ->
+  seed_xy (fun t => a * seed t + b) (fun t => c * target t + d) N == c * a * seed_xy seed target N /\
+  seed_xx (fun t => c * target t + d) N == c * c * seed_xx target N /\
+  seed_yy (fun t => a * seed t + b) N == a * a * seed_yy seed N.
+Proof. exact seed_sums_affine. Qed.
+Print Assumptions C20_seed_sums_affine.
+
+(* non-vacuity: seed [1,0,-1,0], target [2,0,1,1] have xx = yy = 2, xy = 1: s = 2, r = 1/2; and the executable
+   model agrees on the image under a = 3, b = 2^27, c = 2, d = -10^9 (evaluated, not derived) *)
+Example C20_pearson_affine_hypotheses_met :
+  let seed := fun t => nth t [1;0;-1;0] 0 in
+  let target := fun t => nth t [2;0;1;1] 0 in
+  (0 < 4)%nat /\ 0 < 3 * 2 /\ 0 < 2 /\ 2 * 2 == seed_xx target 4%nat * seed_yy seed 4%nat /\
+  (1 # 2) * 2 == seed_xy seed target 4%nat /\
+  (1 # 2) * (3 * 2 * 2) == seed_xy (fun t => 3 * seed t + 134217728) (fun t => 2 * target t + -1000000000) 4%nat.
+Proof. cbv zeta. split; [apply Nat.lt_0_succ|]. repeat split; vm_compute; reflexivity. Qed.
 
 (* ================================================================= z-score, percent change *)
 Theorem C20_zscore_mean0_var1 : forall x N s, (0 < N)%nat -> ~ s == 0 -> s * s == cvar x N ->
